@@ -156,5 +156,47 @@ PROPS["C04"] = {
     "trusted": _CLIENT_TRUSTED, "assumptions": ["all clock samples of one operation are modelled as one value (margins >= 2 s in the harness)"],
 }
 
+_HIST_RULE = ("histories of 2..4 update cycles on one datastore directory: all pairs of cycles over the version grid "
+              "(timestamp, snapshot, targets, snapshot-listed targets incl. 'entry dropped') in {1,2}^4 (quick, every third "
+              "pair) / {1,2,3}^4 (thorough) without root changes, and random histories in which 0..3 newer roots change the "
+              "timestamp / snapshot / targets role (disjoint key, added key with the old one kept, both online roles, "
+              "threshold 1->2, re-ordered key list, rotate-and-rotate-back), the repository moves between root epochs, the "
+              "shipped root is the oldest, an intermediate or the newest one, every file is genuinely signed by a quorum of the "
+              "epoch's keys (for overlapping key sets a random authorized subset) and unexpired, versions go up and down, "
+              "stored versions are inflated to 2^63 in one history out of six, and one cycle in eight fails on purpose "
+              "(timestamp missing / unparsable, snapshot transport error, expired, enforcement off); both consistent-snapshot "
+              "settings. Non-trivial: versions differ between two cycles, or a root change occurs.")
+
+PROPS["C03"] = {
+    "package": "cyc", "exe": "m_client", "harness_args": ["--prop", "C03"],
+    "rule": _HIST_RULE,
+    "explanation": "Theorems (Tough/Props/C03.lean): for EVERY history (any length, any servers, failing cycles, any shipped "
+                   "roots): after a cycle succeeded with timestamp v / snapshot v listing targets w / targets v, no later "
+                   "cycle succeeds with less (or with the targets entry dropped) unless a cycle in between ended step 1 with a "
+                   "root that changed the listed online keys or the authorization under which the stored document was valid "
+                   "(targets: only the targets role's own authorization). Proved as a datastore invariant (Guard) lifted over "
+                   "histories. Correspondence: per-cycle success and versions of load() on shared datastore directories vs the model.",
+    "level_text": "Kernel-checked invariant over the datastore, lifted by induction to histories of unbounded length; "
+                  "differential runs of multi-cycle histories against the real client.",
+    "level_note": "Trusted: as C02. 'Newer root' is not part of the exemption predicate: the model (like the code) does not "
+                  "persist the root for root-rollback protection, so a repository that withholds newer root files is outside "
+                  "these theorems (see DESIGN.md, residual risk R1).",
+    "trusted": _CLIENT_TRUSTED, "assumptions": [],
+}
+
+PROPS["C14"] = {
+    "package": "cyc", "exe": "m_client", "harness_args": ["--prop", "C14"],
+    "rule": _HIST_RULE,
+    "explanation": "Theorems (Tough/Props/C14.lean): when step 1 ends with a root whose listed timestamp or snapshot keys "
+                   "differ from the recorded root's, both stored files are cleared (also with overlapping key sets) and the "
+                   "whole cycle equals the cycle on a datastore without them (recovery_after_rotation): stored versions, "
+                   "however large, no longer constrain; the targets slot is untouched and keeps protecting. Correspondence "
+                   "as C03 (same generator; histories with inflated stored versions and overlapping rotations).",
+    "level_text": "Kernel-checked equality between the cycle on the real datastore and on the cleared one under a key "
+                  "rotation; differential multi-cycle runs.",
+    "level_note": "Trusted: as C02.",
+    "trusted": _CLIENT_TRUSTED, "assumptions": [],
+}
+
 _PENDING = "check under construction in this session (DESIGN.md §10 order of work); not claimed until it runs"
 NOT_APPLICABLE = {f"C{i:02d}": _PENDING for i in range(1, 21)}
